@@ -7,6 +7,7 @@ import (
 	"strings"
 
 	"pvharness/cmd/c01/pgen"
+	"pvharness/cmd/c02/srctab"
 	"pvharness/lib"
 )
 
@@ -28,7 +29,7 @@ func main() {
 	// table KIND -> the classification table extracted from layer_frame.go (tables.go); "unrecognised" is never
 	// recorded as a case: the check then rests on the generated frames only and says so in a stat.
 	r.Register("table", func(a []string) string {
-		tabs, _ := sourceTables()
+		tabs, _ := srctab.SourceTables()
 		if txt, ok := tabs[a[0]]; ok {
 			return txt
 		}
@@ -38,7 +39,7 @@ func main() {
 		return
 	}
 	{
-		tabs, unrec := sourceTables()
+		tabs, unrec := srctab.SourceTables()
 		for _, k := range []string{"payloadid", "ethertype", "ipproto", "udpports"} {
 			if _, ok := tabs[k]; ok {
 				r.Do("table", k)
